@@ -13,7 +13,10 @@
              by [exec_mini])
      mode 3  lowering: payload = Mini program term, the model runs
              [eval_ssa (lower p)]; observed as in mode 0
-   output = ((output values...) ...), one list per input vector.
+     mode 4-7  circuit generation: payload = the SSA listing as in mode 1, the
+             model runs [circuit_of_ssa_gen] (4/5 Yao, 6/7 GMW target; 5/7 with
+             the full gate list): see Lang/RunC03cg.v for the observable
+   output = ((output values...) ...), one list per input vector (modes 0-3).
 
    Term syntax (atoms are integers):
      type  (0) bool | (1 w) intw | (2 w) uintw | (3 n t) [n]t | (4 t...) struct
@@ -26,7 +29,8 @@
      func  (((x t)...) (t...) (s...))
      prog  (func...)                      definition order, main last
      ssa   ((w...) (instr...) (opnd...))
-     instr (opcode aux out_signed out_bits (opnd...))
+     instr (opcode aux out_signed out_bits (opnd...))   aux: index = element width,
+                                                        builtin = 1 for circuits.Hamming
      opnd  (0 i signed bits) | (1 cw cv signed bits)                         *)
 From Coq Require Import ZArith NArith List Bool.
 From Mpc Require Import Gen.Consts Base.Sx Lang.Mini Lang.Ssa Lang.Lower Lang.RunC03cg.
@@ -148,7 +152,11 @@ Definition opcode_table : list (Z * opcode) :=
    (compiler_ssa_Slice, Oslice);
    (compiler_ssa_Amov, Oamov);
    (compiler_ssa_Index, Oindex);
-   (compiler_ssa_Phi, Ophi)].
+   (compiler_ssa_Phi, Ophi);
+   (compiler_ssa_Concat, Oconcat);
+   (compiler_ssa_Bts, Obts);
+   (compiler_ssa_Btc, Obtc);
+   (compiler_ssa_Builtin, Ohamming)].
 
 Fixpoint assocZ (z : Z) (l : list (Z * opcode)) : opcode :=
   match l with
@@ -164,9 +172,14 @@ Definition dec_opnd (s : sx) : opnd :=
   else OConst (getnat (nthx 1 s)) (getN (nthx 2 s))
               (mkSty (getB (nthx 3 s)) (getnat (nthx 4 s))).
 
+(* aux: index = element width; builtin = which builtin (1 = circuits.Hamming, the
+   only one ast/builtin.go emits; anything else has no model) *)
 Definition dec_instr (s : sx) : instr :=
-  mkInstr (dec_opcode (getZ (nthx 0 s))) (map dec_opnd (getL (nthx 4 s)))
-          (mkSty (getB (nthx 2 s)) (getnat (nthx 3 s))) (getnat (nthx 1 s)).
+  let op := dec_opcode (getZ (nthx 0 s)) in
+  let aux := getnat (nthx 1 s) in
+  let op := match op with Ohamming => if Nat.eqb aux 1 then Ohamming else Ounsupported | _ => op end in
+  mkInstr op (map dec_opnd (getL (nthx 4 s)))
+          (mkSty (getB (nthx 2 s)) (getnat (nthx 3 s))) aux.
 
 Definition dec_sprog (s : sx) : sprog :=
   mkSprog (getLnat (nthx 0 s)) (map dec_instr (getL (nthx 1 s)))
@@ -176,8 +189,10 @@ Definition run_c03 (inp : sx) : sx :=
   let mode := getZ (nthx 0 inp) in
   let payload := nthx 1 inp in
   let vectors := map getLN (getL (nthx 2 inp)) in
-  if Z.eqb mode 4 then run_c03cg false (dec_sprog payload) vectors
-  else if Z.eqb mode 5 then run_c03cg true (dec_sprog payload) vectors
+  if Z.eqb mode 4 then run_c03cg false false (dec_sprog payload) vectors
+  else if Z.eqb mode 5 then run_c03cg false true (dec_sprog payload) vectors
+  else if Z.eqb mode 6 then run_c03cg true false (dec_sprog payload) vectors
+  else if Z.eqb mode 7 then run_c03cg true true (dec_sprog payload) vectors
   else if Z.eqb mode 1 then
     let p := dec_sprog payload in
     SL (map (fun v => ofLN (eval_ssa p v)) vectors)
